@@ -5,6 +5,7 @@
 // crossing must abort - never be truncated.  Properties C11 (results) and C12 (callback arguments / results).
 // The same source also builds with the ordinary stub (guest int = 32 bits) as a control.
 #include "../sim/world_common.hpp"
+#include "../sim/mmu.hpp"
 #include <climits>
 #include <memory>
 
@@ -80,9 +81,28 @@ enum Kind
 {
   A_RESULT,
   A_CALLBACK,
+  A_READ_CELL,
   K_COUNT
 };
-static const char* kKind[] = { "int_result", "callback_with_int_arguments" };
+static const char* kKind[] = { "int_result", "callback_with_int_arguments", "int_read_from_sandbox_memory" };
+
+// the guest rewrites an int cell at RLBox's k-th access to it
+struct CellFault
+{
+  uint8_t* gcell;
+  uint64_t k;
+  int64_t value;
+  bool fired;
+};
+static void cell_hook(uint64_t k, uint32_t, bool, void* ud)
+{
+  auto* f = (CellFault*)ud;
+  if (!f->fired && k == f->k) {
+    GI v = (GI)f->value;
+    memcpy(f->gcell, &v, sizeof v);
+    f->fired = true;
+  }
+}
 
 static int64_t pick64(Rng& r)
 {
@@ -122,6 +142,7 @@ struct AbiWorld : World
     Sbx::cfg = Sbx::Config();
     Sbx::cfg.size = 4096;
     Sbx::cfg.registry = !p.cfg.empty() && p.cfg[0];
+    Sbx::cfg.mmu = true;
     constexpr bool wide = sizeof(GI) > sizeof(int);
     Sandbox sb;
     sb.create_sandbox(0);
@@ -149,6 +170,34 @@ struct AbiWorld : World
           c.violate("C11", "wrong_result@int_result", "guest returned %lld, application got %d (%s)", (long long)g_ri_result, got, oname(o));
         else if (!fits && o == OK)
           c.violate("C11", "unrepresentable_result_delivered_truncated@int_result", "guest returned %lld, which no int can hold; the application got %d", (long long)g_ri_result, got);
+      } else if (op.kind == A_READ_CELL) {
+        // an int that lives in sandbox memory is read (copy_and_verify on the value): the guest may rewrite it while the
+        // library looks at it.  What comes out was in the cell at some moment, or the read aborts - a value that passed
+        // the range check as one number must not be delivered as the truncation of another
+        int64_t first = (int64_t)(int)pick64(r);
+        int64_t second = wide ? pick64(r) : (int64_t)(int32_t)pick64(r);
+        uint64_t k = r.below(4); // 0: no interference
+        auto cell = sb.malloc_in_sandbox<int>();
+        if (!cell)
+          continue;
+        uint8_t* gcell = sb.get_sandbox_impl()->mem.gbase + ((uintptr_t)cell.UNSAFE_unverified() - (uintptr_t)sb.get_sandbox_impl()->mem.base);
+        GI init = (GI)first;
+        memcpy(gcell, &init, sizeof init);
+        CellFault cf{ gcell, k, second, false };
+        int got = 0;
+        mmu::arm(sb.get_sandbox_impl()->mem.base, sb.get_sandbox_impl()->mem.size, cell_hook, &cf);
+        Outcome o = attempt([&] { got = (*cell).copy_and_verify([](int v) { return v; }); });
+        mmu::disarm();
+        c.st.steps += mmu::g.count;
+        c.ev("int_read_from_sandbox_memory %lld then %lld at access %llu (fired %d) -> %s %d", (long long)first, (long long)second, (unsigned long long)k, (int)cf.fired, oname(o), got);
+        if (cf.fired)
+          c.fired("F2_int_cell_rewritten_between_accesses");
+        bool second_fits = second >= INT_MIN && second <= INT_MAX;
+        if (o == OK && !(got == (int)first || (cf.fired && second_fits && got == (int)second)))
+          c.violate("C09", "delivered_value_never_in_source@int_read_from_sandbox_memory", "cell held %lld, then %lld; the application got %d", (long long)first, (long long)second, got);
+        else if (o != OK && !(cf.fired && !second_fits))
+          c.violate("C09", "read_of_representable_value_aborts@int_read_from_sandbox_memory", "cell held %lld%s: %s", (long long)first, cf.fired ? " (rewritten to a representable value)" : "", g_last_abort_msg.c_str());
+        attempt([&] { sb.free_in_sandbox(cell); });
       } else {
         g_calli = GuestSaw();
         g_cb = CbSaw();
@@ -187,7 +236,7 @@ int main(int argc, char** argv)
 {
   libs().push_back({ { "f_ri", (void*)&G::ri }, { "f_calli", (void*)&G::calli } });
   install_crash_handlers("replays");
-  install_segv_handler();
+  mmu::install(crash_handler);
   AbiWorld w;
   return sim_main(w, argc, argv);
 }
